@@ -350,8 +350,9 @@ def jobs(tier):
     add("h_flavour", op="map", S=2, N=1, X=(0, 6), Y=(0, 6), Z=(0, 4))
     add("h_flavour", op="starmap", S=2, N=1, X=(0, 6), Z=(0, 4))
     for b0 in (False, True):
-        for b1 in (False, True):
-            add("h_flavour", op="merge", S=2, N=(1 if q else 2), X=(0, 6), Y=(0, 6), Z=((0, 4) if b1 else (0, 0)), b0=b0, b1=b1)
+        add("h_flavour", op="merge", S=2, N=(1 if q else 2), X=(0, 6), Y=(0, 6), b0=b0, b1=False)
+        for zz in range(5):
+            add("h_flavour", op="merge", S=2, N=(1 if q else 2), X=(0, 6), Y=(0, 6), Z=(zz, zz), b0=b0, b1=True)
     add("h_flavour", op="zip", S=3, N=1, X=(0, 6), Y=(0, 6))
     add("h_types")
     add("h_exit_flavour")
